@@ -1,11 +1,14 @@
 #!/bin/bash
-# verifies every /tmp/seedout/<id>/<X> seed not yet verified; writes /tmp/seedout/verify/<id>_<X>.log
-mkdir -p /tmp/seedout/verify
-for d in /tmp/seedout/C*/[AB]; do
+# usage: tools/verify_all_seeds.sh [base dir (default /tmp/seedout)]
+# verifies every <base>/<id>/<X> seed not yet verified; writes <base>/verify/<id>_<X>.log
+base="${1:-/tmp/seedout}"
+mkdir -p $base/verify
+for d in $base/C*/[A-D]; do
   id=$(basename $(dirname $d)); x=$(basename $d)
-  out=/tmp/seedout/verify/${id}_${x}.log
-  [ -s "$out" ] && continue
+  out=$base/verify/${id}_${x}.log
+  [ -e "$out" ] && continue
   [ -f "$d/patch.diff" ] && [ -f "$d/demo_test.go" ] || continue
+  : > $out
   pk=$(grep -m1 '^package ' $d/demo_test.go | awk '{print $2}')
   case "$pk" in
     store|store_test) pkg=ddsketch/store;;
